@@ -13,9 +13,13 @@ mod token_ring;
 #[cfg(test)]
 mod test_active;
 
+#[cfg(feature = "verif-hooks")]
+pub use active::VerifFdlView;
 pub use active::{ConnectivityState, FdlActiveStation};
 pub use parameters::{Parameters, ParametersBuilder};
 pub(crate) use token_ring::TokenRing;
+#[cfg(feature = "verif-hooks")]
+pub use token_ring::TokenRing as VerifTokenRing;
 
 // Hide these for now until they get a cleaner interface
 #[doc(hidden)]
